@@ -80,6 +80,83 @@ def checked_bulk_writes(prog, res):
     res.need(R, 6)
 
 
+def wildcopy_margins(prog, res):
+    """T11: sequence execution copies literals and matches with ZSTD_wildcopy, which may read and write up to
+    WILDCOPY_OVERLENGTH bytes past the end of what it was asked to copy.  Two placement decisions of the literals buffer
+    rely on that margin and are checked as linear inequalities over the AST (locals expanded):
+    (in-dst) literals are put at dst + X only under `dstCapacity > G`, and G - X - litSize >= WILDCOPY_OVERLENGTH;
+    (in-src) raw literals are referenced in place in the input only when lhSize + litSize + K <= srcSize, K >= WILDCOPY_OVERLENGTH."""
+    from ..rules.linear import linear, fmt, macro_value
+    R = "T11.wildcopy-margin"
+    a = prog.fn("ZSTD_allocateLiteralsBuffer")
+    d = prog.fn("ZSTD_decodeLiteralsBlock")
+    W = macro_value(prog, "WILDCOPY_OVERLENGTH", [a, d, prog.fn("ZSTD_execSequence")])
+    res.check(isinstance(W, int) and W >= 16, R, "WILDCOPY_OVERLENGTH", a.loc, "WILDCOPY_OVERLENGTH = %s" % W, "WILDCOPY_OVERLENGTH not found in the expanded code")
+    if not isinstance(W, int):
+        return
+    # ---- in-dst placement
+    dst, cap, lit = "p1", "p2", "p3"
+    n = 0
+    for b, i, x in a.events(lambda y: y.get("k") == "asg" and strip_casts(y["lhs"]).get("f") == "litBuffer"):
+        X = linear(a, x["rhs"])
+        if X is None or X.get(dst) != 1 or lit in X:
+            continue            # the other placements do not start the buffer at a fixed offset of dst
+        for bid, cond, t, fl in a.branches():
+            c = strip_casts(a.resolve_x(cond))
+            if c is None or c.get("k") != "bin" or c.get("op") not in (">", ">=", "<", "<="):
+                continue
+            L, Rr = linear(a, c["lhs"]), linear(a, c["rhs"])
+            capside, other = (L, Rr) if L == {cap: 1} else ((Rr, L) if Rr == {cap: 1} else (None, None))
+            if capside is None or other is None:
+                continue
+            roomy = t if ((c["op"] in (">", ">=")) == (L == {cap: 1})) else fl
+            if not a.must_pass(via_edges=[(bid, roomy)], targets=[(b, i)]):
+                continue
+            n += 1
+            diff = dict(other)
+            for s_, c_ in X.items():
+                if s_ != dst:
+                    diff[s_] = diff.get(s_, 0) - c_
+            diff[lit] = diff.get(lit, 0) - 1
+            diff = {k: v for k, v in diff.items() if v}
+            strict = c["op"] in (">", "<")
+            ok = set(diff) <= {1} and diff.get(1, 0) + (0 if strict else -1) >= W
+            res.check(ok, R, "literals-in-dst@%s" % x.get("l"), "%s:%s" % (a.file, x.get("l")),
+                      "capacity bound (%s) leaves WILDCOPY_OVERLENGTH after the literals placed at %s" % (fmt(other), fmt(X)),
+                      "literals are placed inside dst at %s when dstCapacity exceeds %s: that leaves %s bytes after them, less than WILDCOPY_OVERLENGTH "
+                      "(%d) - the sequence executor's wild copies read/write past the end of dst" % (fmt(X), fmt(other), fmt(diff) or "0", W))
+    res.check(n >= 1, R, "literals-in-dst:site", a.loc, "in-dst placement found", "in-dst placement of the literals buffer not found")
+    # ---- in-src reference of raw literals
+    src, srcsz = "p1", "p2"
+    refs = [(b, i) for b, i, x in d.events(lambda y: y.get("k") == "asg" and strip_casts(y["lhs"]).get("f") == "litPtr")
+            if (linear(d, x["rhs"], follow=True) or {}).get(src) == 1]
+    res.check(len(refs) >= 1, R, "literals-in-src:site", d.loc, "%d in-place reference(s) of raw literals" % len(refs), "in-place reference of raw literals not found")
+    safe = []
+    for bid, cond, t, fl in d.branches():
+        c = strip_casts(d.resolve_x(cond))
+        if c is None or c.get("k") != "bin" or c.get("op") not in (">", ">=", "<", "<="):
+            continue
+        L, Rr = linear(d, c["lhs"], follow=False), linear(d, c["rhs"], follow=False)
+        if L is None or Rr is None:
+            continue
+        szside_left = (L == {srcsz: 1})
+        if not szside_left and Rr != {srcsz: 1}:
+            continue
+        other = Rr if szside_left else L
+        if not any(str(k).startswith(("l:", "sl:")) for k in other):
+            continue
+        K = other.get(1, 0) + (0 if c["op"] in (">", "<") else -1)
+        # edge on which  other <= srcSize
+        fits = fl if ((c["op"] in (">", ">=")) != szside_left) else t
+        if K >= W:
+            safe.append((bid, fits))
+    ok = bool(refs) and bool(safe) and d.must_pass(via_edges=safe, targets=refs)
+    res.check(ok, R, "literals-in-src", d.loc, "raw literals are referenced in the input only with WILDCOPY_OVERLENGTH readable bytes after them",
+              "raw literals are referenced in place in the input without %d readable bytes after them: the sequence executor's wild copy reads "
+              "past the end of the input buffer" % W)
+    res.need(R, 5)
+
+
 def run(tier):
     res = Result("C06", tier)
     tus, info = extract(["compress", "decompress", "common"])
@@ -91,6 +168,7 @@ def run(tier):
     res.need("T8.capacity-guard", len(inv))
     capacity.dst_capacity_pairs(prog, res, "T8.dst-capacity-pair", ["lib/compress/", "lib/decompress/"], 36)
     checked_bulk_writes(prog, res)
+    wildcopy_margins(prog, res)
     t4_common.run(prog, res, "T4.error-discipline", ["lib/compress/"], 220)
 
     # the one deliberate swallow: dstSize_tooSmall -> 0 only when the raw block still fits
